@@ -39,12 +39,12 @@ func (o opt) GoString() string { return "opt{}" }
 // evenInt is a named integer whose methods contradict the built-in operators.
 type evenInt int64
 
-func (e evenInt) IsZero() bool         { return e%2 == 0 }
-func (e evenInt) String() string       { return "0" }
-func (e evenInt) Less(evenInt) bool    { return false }
-func (e evenInt) Equal(evenInt) bool   { return true }
-func (e evenInt) Compare(evenInt) int  { return 0 }
-func (e evenInt) Abs() evenInt         { return 0 }
+func (e evenInt) IsZero() bool        { return e%2 == 0 }
+func (e evenInt) String() string      { return "0" }
+func (e evenInt) Less(evenInt) bool   { return false }
+func (e evenInt) Equal(evenInt) bool  { return true }
+func (e evenInt) Compare(evenInt) int { return 0 }
+func (e evenInt) Abs() evenInt        { return 0 }
 
 // label is a named string with methods.
 type label string
@@ -114,11 +114,11 @@ type namedPtr[T any] *T
 
 type methInt8 int8
 
-func (methInt8) IsZero() bool        { return true }
-func (methInt8) String() string      { return "0" }
-func (methInt8) Less(methInt8) bool  { return false }
+func (methInt8) IsZero() bool         { return true }
+func (methInt8) String() string       { return "0" }
+func (methInt8) Less(methInt8) bool   { return false }
 func (methInt8) Compare(methInt8) int { return 0 }
-func (methInt8) Abs() methInt8       { return 0 }
+func (methInt8) Abs() methInt8        { return 0 }
 
 type methInt64 int64
 
